@@ -58,3 +58,24 @@ fn balance_is_sum_of_unspent() {
         }
     }
 }
+
+/// C10/C12: the wallet file decoder is fed whatever is on disk (RustIOHandler::load_wallet passes the file's bytes
+/// unchecked); a truncated or torn file must not abort the node
+#[test]
+fn wallet_file_decoder_total() {
+    let (pk, sk) = generate_keys();
+    let w = Wallet::new(sk, pk);
+    let full = w.serialize_for_disk();
+    if full.len() != 65 { witness(format!("wallet file is {} bytes, expected 65", full.len())); }
+    for cut in 0..=full.len() {
+        let bytes = full[..cut].to_vec();
+        let prev = std::panic::take_hook();
+        std::panic::set_hook(Box::new(|_| {}));
+        let r = std::panic::catch_unwind(move || { let (p2, s2) = ([0u8; 33], [0u8; 32]); let mut w2 = Wallet::new(s2, p2); w2.deserialize_from_disk(&bytes); (w2.public_key, w2.private_key) });
+        std::panic::set_hook(prev);
+        match r {
+            Err(_) => witness(format!("Wallet::deserialize_from_disk panicked on a wallet file truncated to {} of 65 bytes (RustIOHandler::load_wallet passes the file content unchecked)", cut)),
+            Ok((p, s)) => { if cut == 65 && (p != pk || s != sk) { witness("wallet file does not round trip".into()); } }
+        }
+    }
+}
